@@ -34,6 +34,12 @@ def scope(prog):
     roots = []
     for rx in ENTRY_RX:
         roots.extend(prog.find(rx))
+    if not any(r.path.endswith('remove_dir_recursively') for r in roots):
+        from . import layer_roles
+        from .lib.value import Slicer
+        rm = layer_roles.roles(prog, Slicer(prog)).get('REMOVER')
+        if rm in prog.fns:
+            roots.append(prog.fns[rm])
     reach = prog.reach(roots, stop=lambda f: bool(OUT_OF_SUBJECT.match(f.path)))
     return roots, {p: f for p, f in reach.items()
                    if f.crate in ('libcnb', 'libcnb_common') and not OUT_OF_SUBJECT.match(p) and not f.derived}
@@ -118,7 +124,9 @@ def check_buffered_writers(prog, rep, slicer, fns, tag=''):
 
 def check_not_found_helper(prog, rep, slicer):
     """R2: the best-effort helper turns exactly ErrorKind::NotFound into success"""
-    f = prog.fn('libcnb::util::default_on_not_found')
+    from . import layer_roles
+    ROLES = layer_roles.roles(prog, slicer)
+    f = prog.fn(ROLES['NOT_FOUND_HELPER'] or 'libcnb::util::default_on_not_found')
     rep.analysed(f)
     ok_sites = []
     for bi, b in enumerate(f.blocks):
@@ -131,7 +139,7 @@ def check_not_found_helper(prog, rep, slicer):
         conds = conditions(f, bi, slicer)
         is_err = any(c.kind == 'variant' and c.outcome == frozenset({'Err'}) for c in conds)
         nf = [c for c in conds if c.kind == 'bool' and c.value[0] == 'call'
-              and c.value[1] == 'libcnb::util::is_not_found_error_kind' and c.outcome is True]
+              and c.value[1] == ROLES['NOT_FOUND_PRED'] and c.outcome is True]
         rep.check(is_err and bool(nf), 'R2', 'default_on_not_found/guard', '%s:%d' % (f.file, f.line),
                   'Ok(default) is produced only under Err(e) && is_not_found_error_kind(e)',
                   'Ok(default) is produced without the NotFound guard: other I/O errors would be swallowed',
@@ -143,7 +151,7 @@ def check_not_found_helper(prog, rep, slicer):
             v = slicer._rvalue(f, d[3], set(), 0, None)
             rep.check(v[0] == 'param', 'R2', 'default_on_not_found/passthrough', '%s:%d' % (f.file, f.line),
                       'all other results are returned unchanged', 'a non-NotFound result is altered: ' + vstr(v))
-    g = prog.fn('libcnb::util::is_not_found_error_kind')
+    g = prog.fn(ROLES['NOT_FOUND_PRED'] or 'libcnb::util::is_not_found_error_kind')
     rep.analysed(g)
     true_sites = []
     for bi, b in enumerate(g.blocks):
